@@ -122,10 +122,13 @@ class Callout:
             type = get_value(stream.data, stream.index, 2)
             if type == 0x4944:
                 self.fruIdentity = FRUIdentity(stream)
+                currentSize += self.fruIdentity.flattenedSize
             elif type == 0x5045:
                 self.pceIdentity = PCEIdentity(stream)
+                currentSize += self.pceIdentity.flattenedSize
             elif type == 0x4D52:
                 self.mru = MRU(stream)
+                currentSize += self.mru.flattenedSize
             else:
                 break
 
